@@ -641,8 +641,8 @@ func (f *Flow) withDeferred(cur []Event, exit ExitKind) []Event {
 	}
 	for i := len(cur) - 1; i >= 0; i-- {
 		e := cur[i]
-		if e.Kind != EvDefer {
-			continue
+		if e.Kind != EvDefer || e.Depth > 0 {
+			continue // (the deferred calls of an inlined callee ran when it returned: they are among its events)
 		}
 		if fl, ok := e.Call.Fun.(*ast.FuncLit); ok {
 			out = append(out, f.deferredLitEvents(fl)...)
